@@ -2,6 +2,7 @@ package chains
 
 import (
 	"sort"
+	"strconv"
 	"time"
 )
 
@@ -167,6 +168,7 @@ func unitLeaves(u Unit, m Mode) []interface{} {
 type topExpr struct {
 	loneOr bool
 	leaves []interface{}
+	inner  []topExpr // the members of a grouped condition passed to Where
 }
 
 // whereLeaves orders the top-level conditions: call order, except that the
@@ -176,6 +178,10 @@ type topExpr struct {
 // and a lone Or exists, the filter first groups all conditions, which keeps
 // call order.
 func whereLeaves(exprs []topExpr, softDelete bool) []interface{} {
+	if len(exprs) == 1 && exprs[0].inner != nil && !softDelete {
+		// a single grouped condition is the whole WHERE clause: its members are the top-level conditions
+		exprs = exprs[0].inner
+	}
 	anyOr := false
 	for _, e := range exprs {
 		anyOr = anyOr || e.loneOr
@@ -198,11 +204,25 @@ func whereLeaves(exprs []topExpr, softDelete bool) []interface{} {
 
 func (c *Chain) topExprs(m Mode) []topExpr {
 	var out []topExpr
+	group := func(u Unit) []topExpr {
+		if u.Form != "group" {
+			return nil
+		}
+		var in []topExpr
+		for _, g := range u.Group {
+			in = append(in, topExpr{loneOr: g.Op == "or", leaves: unitLeaves(g.U, m)})
+		}
+		return in
+	}
 	for _, cd := range c.Conds {
-		out = append(out, topExpr{loneOr: cd.Op == "or", leaves: unitLeaves(cd.U, m)})
+		e := topExpr{loneOr: cd.Op == "or", leaves: unitLeaves(cd.U, m)}
+		if cd.Op == "where" {
+			e.inner = group(cd.U)
+		}
+		out = append(out, e)
 	}
 	if c.Inline != nil {
-		out = append(out, topExpr{leaves: unitLeaves(*c.Inline, m)})
+		out = append(out, topExpr{leaves: unitLeaves(*c.Inline, m), inner: group(*c.Inline)})
 	}
 	return out
 }
@@ -367,8 +387,9 @@ type Info struct {
 }
 
 type walker struct {
-	info Info
-	lit  bool // LIMIT/OFFSET are literals
+	info   Info
+	lit    bool // LIMIT/OFFSET are literals
+	onTmpl func(*Tmpl)
 }
 
 func (w *walker) val(v Val) {
@@ -417,6 +438,9 @@ func (w *walker) arg(a Arg) {
 }
 
 func (w *walker) tmpl(t *Tmpl) {
+	if w.onTmpl != nil {
+		w.onTmpl(t)
+	}
 	if t.Named() {
 		w.info.Hazards["named"] = true
 		w.info.Classes["named:"+t.Carrier] = true
@@ -545,6 +569,11 @@ func (w *walker) chain(c *Chain) {
 			w.info.Tokens = append(w.info.Tokens, Val{K: KInt, I: int64(c.Offset)}.Tokens()...)
 		}
 	}
+	for _, id := range append([]int64{c.ModelID}, recIDs(c)...) {
+		if id >= 1000000 {
+			w.info.Tokens = append(w.info.Tokens, strconv.FormatInt(id, 10))
+		}
+	}
 	if c.LimitCl {
 		w.info.Classes["clauses:limit"] = true
 	}
@@ -584,6 +613,17 @@ func (w *walker) chain(c *Chain) {
 	if c.Raw != nil {
 		w.tmpl(c.Raw)
 	}
+}
+
+func recIDs(c *Chain) []int64 {
+	var out []int64
+	if c.DelRec != nil {
+		out = append(out, c.DelRec.ID)
+	}
+	for _, r := range c.Rows {
+		out = append(out, r.ID)
+	}
+	return out
 }
 
 // Describe walks the chain. literalLimit: LIMIT/OFFSET values are legitimately
